@@ -240,3 +240,17 @@ package apd
 //@   assigns b, *diff
 //@   ensures old(val(b)) + 1 < pow10(nd10(old(val(b)))) ==> (val(b) == old(val(b)) + 1 && *diff == old(*diff))
 //@   ensures old(val(b)) + 1 >= pow10(nd10(old(val(b)))) ==> (val(b) == pow10(nd10(old(val(b))) - 1) && *diff == old(*diff) + 1)
+
+// ---------------------------------------------------------------- decimal.go: Modf, setExponent
+
+//@ func (*Decimal).Modf
+//@   props C17 C05 C06 C09 C01
+//@   nilable integ, frac
+//@   requires integ != nil ==> writable(integ)
+//@   requires frac != nil ==> writable(frac)
+//@   requires integ == nil || integ != frac
+//@   requires val(d.Coeff) >= 0
+//@   assigns integ, frac
+//@   ensures [integ] integ != nil ==> (integ.Exponent == max(old(d.Exponent), 0) && integ.Negative == old(d.Negative) && val(integ.Coeff) == ite(old(d.Exponent) > 0, old(val(d.Coeff)), div(old(val(d.Coeff)), pow10(-old(d.Exponent)))))
+//@   ensures [frac] frac != nil ==> (frac.Exponent == min(old(d.Exponent), 0) && frac.Negative == old(d.Negative) && val(frac.Coeff) == ite(old(d.Exponent) > 0, 0, mod(old(val(d.Coeff)), pow10(-old(d.Exponent)))))
+//@   ensures [form] old(d.Form) == Finite ==> ((integ != nil ==> integ.Form == Finite) && (frac != nil ==> frac.Form == Finite))
